@@ -42,6 +42,13 @@ def sup_scenarios(rep, tier, seed):
                 rep.skip("non_finite_precomputed_matrix")
                 continue
             scns.append(scn)
+    # larger training sets (40..64 samples): positions deep in the queue's array, long ordered lists
+    rng6 = random.Random(seed * 1000003 + 406)
+    for i in range(24 if thorough else 6):
+        scn = S.random_float_scenario(rng6, metric=("euclidean", "manhattan", "log_squared_euclidean")[i % 3], n=(40, 48, 64)[i % 3], nq=0, lattice=False, mode="metric", classes=rng6.choice([2, 3, 4]), dim=2, copies=False)
+        scn["Q"] = list(scn["I_train"])
+        scn["history"] = []
+        scns.append(scn)
     # resubstitution after save -> load into an object built with another metric
     scns += S.reload_scenarios(random.Random(seed * 1000003 + 405), 120 if thorough else 32, resub=True)
     return scns
